@@ -62,8 +62,8 @@ def centre_of(center, N):
     return c
 
 
-def rational(v, max_den=1024):
-    """exact value of a (float/int) parameter as a Fraction with a small denominator, else None"""
+def rational(v, max_den=2 ** 60):
+    """exact value of a (float/int) parameter as a Fraction (floats are dyadic rationals; k +- one ulp is accepted), else None"""
     try:
         if isinstance(v, (bool, np.bool_)) or isinstance(v, (list, tuple, np.ndarray)):
             return None
@@ -241,3 +241,146 @@ def fold(kind, bools):
         else:
             raise ValueError(kind)
     return out
+
+
+# ---- near-miss lattice points of ellipsoids ---------------------------------------------------------------------
+# (rx, ry, rz, i, j, k) with rx <= ry <= rz <= 68 and offsets 0..47: the integer left-hand side
+# i^2 (ry rz)^2 + j^2 (rx rz)^2 + k^2 (rx ry)^2 differs from (rx ry rz)^2 by less than 2.5e-7 of it without being equal
+# (found by an exhaustive search in exact integer arithmetic; both signs: just inside and just outside the surface).  A
+# membership test with any relative slack / single-precision evaluation misjudges exactly these voxels.
+NEAR_MISS = [
+    (3, 28, 55, 1, 19, 36), (3, 34, 67, 1, 23, 44), (3, 41, 58, 0, 29, 41), (3, 44, 51, 0, 19, 46), (3, 49, 50, 1, 32, 34),
+    (3, 67, 68, 1, 44, 46), (4, 21, 29, 1, 19, 10), (4, 21, 55, 3, 2, 36), (4, 21, 58, 1, 19, 20), (4, 33, 43, 3, 19, 14),
+    (4, 33, 67, 3, 14, 34), (4, 66, 67, 3, 28, 34), (5, 16, 41, 4, 5, 21), (5, 24, 31, 4, 13, 8), (5, 24, 62, 4, 13, 16),
+    (5, 32, 41, 4, 10, 21), (5, 41, 48, 4, 21, 15), (5, 41, 56, 1, 24, 44), (5, 41, 64, 4, 21, 20), (5, 48, 62, 4, 26, 16),
+    (6, 19, 37, 2, 13, 24), (6, 23, 47, 2, 15, 32), (6, 31, 61, 2, 21, 40), (6, 34, 67, 2, 23, 44), (6, 67, 68, 2, 44, 46),
+    (8, 14, 43, 5, 2, 33), (8, 18, 35, 5, 11, 17), (8, 21, 29, 2, 19, 10), (8, 21, 58, 2, 19, 20), (8, 22, 43, 1, 19, 21),
+    (8, 29, 42, 7, 5, 19), (8, 33, 43, 6, 19, 14), (8, 33, 67, 6, 14, 34), (8, 35, 36, 5, 17, 22), (8, 42, 55, 6, 4, 36),
+    (8, 42, 58, 7, 19, 10), (8, 66, 67, 6, 28, 34), (9, 26, 53, 3, 17, 36), (9, 34, 67, 3, 23, 44), (9, 35, 51, 7, 16, 22),
+    (9, 42, 55, 7, 19, 24), (9, 67, 68, 3, 44, 46), (10, 16, 41, 8, 5, 21), (10, 24, 31, 8, 13, 8), (10, 24, 62, 8, 13, 16),
+    (10, 32, 41, 8, 10, 21), (10, 34, 47, 3, 16, 39), (10, 41, 48, 8, 21, 15), (10, 41, 64, 8, 21, 20),
+    (10, 42, 68, 9, 17, 11), (10, 49, 60, 4, 40, 25), (11, 16, 42, 9, 9, 5), (11, 32, 42, 9, 18, 5),
+    (11, 35, 38, 1, 32, 15), (11, 42, 48, 9, 5, 27), (11, 43, 56, 10, 3, 23), (11, 49, 67, 9, 27, 11),
+    (12, 15, 49, 5, 6, 40), (12, 16, 47, 1, 3, 46), (12, 21, 29, 3, 19, 10), (12, 21, 58, 3, 19, 20),
+    (12, 26, 53, 4, 17, 36), (12, 28, 55, 4, 19, 36), (12, 29, 42, 3, 10, 38), (12, 30, 49, 5, 12, 40),
+    (12, 33, 43, 9, 19, 14), (12, 33, 67, 9, 14, 34), (12, 34, 67, 4, 23, 44), (12, 41, 65, 5, 28, 39),
+    (12, 45, 49, 5, 18, 40), (12, 49, 50, 4, 32, 34), (12, 49, 50, 5, 40, 20), (12, 58, 59, 4, 38, 40),
+    (12, 66, 67, 9, 28, 34), (12, 67, 68, 4, 44, 46), (13, 28, 67, 10, 9, 37), (13, 37, 53, 4, 26, 34),
+    (13, 56, 67, 10, 18, 37), (14, 16, 41, 13, 1, 15), (14, 32, 41, 13, 2, 15), (14, 40, 43, 2, 25, 33),
+    (14, 41, 48, 13, 15, 3), (14, 41, 64, 13, 15, 4), (15, 16, 41, 12, 5, 21), (15, 17, 53, 4, 16, 11),
+    (15, 24, 31, 12, 13, 8), (15, 24, 62, 12, 13, 16), (15, 28, 58, 6, 25, 12), (15, 32, 41, 12, 10, 21),
+    (15, 34, 67, 5, 23, 44), (15, 37, 57, 5, 24, 39), (15, 41, 42, 3, 24, 33), (15, 41, 48, 12, 21, 15),
+    (15, 41, 64, 12, 21, 20), (15, 67, 68, 5, 44, 46), (16, 18, 35, 10, 11, 17), (16, 20, 41, 5, 16, 21),
+    (16, 21, 29, 4, 19, 10), (16, 21, 58, 4, 19, 20), (16, 22, 42, 9, 18, 5), (16, 22, 43, 2, 19, 21),
+    (16, 25, 41, 5, 20, 21), (16, 28, 41, 7, 23, 15), (16, 28, 58, 11, 19, 15), (16, 29, 42, 14, 5, 19),
+    (16, 30, 41, 5, 24, 21), (16, 33, 43, 12, 19, 14), (16, 33, 67, 12, 14, 34), (16, 35, 36, 10, 17, 22),
+    (16, 39, 59, 11, 23, 25), (16, 42, 44, 9, 5, 36), (16, 42, 55, 12, 4, 36), (16, 42, 58, 14, 19, 10),
+    (16, 56, 58, 11, 38, 15), (16, 66, 67, 12, 28, 34), (17, 25, 40, 13, 16, 3), (17, 30, 53, 16, 8, 11),
+    (17, 31, 33, 13, 12, 17), (17, 44, 67, 15, 17, 18), (17, 45, 53, 16, 12, 11), (17, 53, 60, 16, 11, 16),
+    (17, 62, 66, 13, 24, 34), (18, 24, 35, 11, 15, 17), (18, 32, 35, 11, 20, 17), (18, 34, 67, 6, 23, 44),
+    (18, 35, 51, 14, 16, 22), (18, 40, 41, 3, 37, 14), (18, 41, 58, 0, 29, 41), (18, 42, 55, 14, 19, 24),
+    (18, 43, 66, 6, 28, 45), (18, 46, 47, 6, 30, 32), (18, 48, 53, 11, 14, 39), (18, 52, 53, 6, 34, 36),
+    (18, 67, 68, 6, 44, 46), (19, 31, 54, 1, 28, 23), (20, 21, 29, 5, 19, 10), (20, 21, 58, 5, 19, 20),
+    (20, 24, 31, 16, 13, 8), (20, 24, 62, 16, 13, 16), (20, 31, 64, 19, 3, 19), (20, 32, 41, 16, 10, 21),
+    (20, 33, 43, 15, 19, 14), (20, 33, 67, 15, 14, 34), (20, 41, 48, 16, 21, 15), (20, 41, 51, 13, 28, 17),
+    (20, 41, 54, 13, 28, 18), (20, 41, 64, 16, 21, 20), (20, 42, 68, 18, 17, 11), (20, 44, 51, 0, 19, 46),
+    (20, 62, 64, 19, 6, 19), (20, 66, 67, 15, 28, 34), (21, 23, 54, 20, 7, 1), (21, 24, 29, 19, 6, 10),
+    (21, 24, 45, 20, 7, 4), (21, 24, 58, 19, 6, 20), (21, 28, 29, 19, 7, 10), (21, 28, 58, 19, 7, 20),
+    (21, 29, 32, 19, 10, 8), (21, 29, 36, 19, 10, 9), (21, 29, 40, 16, 11, 21), (21, 29, 40, 19, 10, 10),
+    (21, 29, 44, 19, 10, 11), (21, 29, 48, 19, 10, 12), (21, 29, 52, 19, 10, 13), (21, 29, 56, 19, 10, 14),
+    (21, 29, 60, 19, 10, 15), (21, 29, 64, 19, 10, 16), (21, 29, 68, 19, 10, 17), (21, 31, 52, 10, 22, 27),
+    (21, 32, 55, 2, 24, 36), (21, 32, 58, 19, 8, 20), (21, 36, 58, 19, 9, 20), (21, 40, 58, 16, 21, 22),
+    (21, 40, 58, 19, 10, 20), (21, 44, 58, 19, 11, 20), (21, 45, 48, 20, 4, 14), (21, 46, 54, 20, 14, 1),
+    (21, 48, 58, 19, 12, 20), (21, 52, 53, 7, 34, 36), (21, 52, 58, 19, 13, 20), (21, 52, 62, 10, 27, 44),
+    (21, 56, 58, 19, 14, 20), (21, 58, 60, 19, 20, 15), (21, 58, 64, 19, 20, 16), (21, 58, 68, 19, 20, 17),
+    (22, 24, 43, 19, 3, 21), (22, 32, 42, 18, 18, 5), (22, 32, 43, 19, 4, 21), (22, 32, 54, 7, 25, 29),
+    (22, 35, 38, 2, 32, 15), (22, 40, 43, 19, 5, 21), (22, 43, 48, 19, 21, 6), (22, 43, 56, 19, 21, 7),
+    (22, 43, 56, 20, 3, 23), (22, 43, 64, 19, 21, 8), (22, 49, 67, 18, 27, 11), (23, 24, 47, 15, 8, 32),
+    (23, 27, 29, 14, 17, 14), (23, 27, 58, 14, 17, 28), (23, 29, 53, 9, 26, 11), (23, 29, 54, 14, 14, 34),
+    (23, 29, 63, 12, 12, 47), (23, 30, 47, 15, 10, 32), (23, 31, 39, 7, 15, 32), (23, 33, 37, 22, 8, 6),
+    (23, 33, 61, 8, 26, 31), (23, 36, 47, 15, 12, 32), (23, 37, 66, 22, 6, 16), (23, 39, 60, 3, 38, 11),
+    (23, 39, 62, 7, 32, 30), (23, 42, 54, 7, 40, 1), (23, 43, 67, 14, 29, 28), (23, 47, 51, 15, 32, 17),
+    (23, 47, 54, 15, 32, 18), (23, 47, 63, 15, 32, 21), (23, 54, 58, 14, 34, 28), (23, 55, 60, 4, 39, 41),
+    (23, 58, 63, 12, 24, 47), (24, 25, 31, 13, 20, 8), (24, 25, 62, 13, 20, 16), (24, 29, 42, 21, 5, 19),
+    (24, 31, 45, 13, 8, 36), (24, 31, 55, 13, 8, 44), (24, 32, 46, 23, 5, 11), (24, 32, 50, 17, 21, 13),
+    (24, 33, 43, 18, 19, 14), (24, 33, 67, 18, 14, 34), (24, 35, 36, 15, 17, 22), (24, 35, 49, 10, 14, 40),
+    (24, 36, 55, 5, 22, 42), (24, 42, 58, 21, 19, 10), (24, 45, 49, 10, 18, 40), (24, 45, 61, 17, 7, 42),
+    (24, 46, 64, 23, 11, 10), (24, 54, 55, 23, 7, 14), (24, 66, 67, 18, 28, 34), (25, 30, 49, 21, 13, 16),
+    (25, 31, 37, 19, 19, 8), (25, 32, 41, 20, 10, 21), (25, 34, 40, 16, 26, 3), (25, 36, 49, 17, 12, 32),
+    (25, 37, 41, 24, 10, 3), (25, 37, 62, 19, 8, 38), (25, 41, 48, 20, 21, 15), (25, 41, 64, 20, 21, 20),
+    (25, 44, 51, 0, 19, 46), (25, 49, 60, 21, 16, 26), (25, 53, 58, 17, 37, 13), (26, 28, 67, 20, 9, 37),
+    (26, 29, 57, 9, 21, 34), (26, 34, 58, 15, 21, 31), (26, 37, 53, 8, 26, 34), (26, 53, 66, 17, 36, 22),
+    (26, 56, 67, 20, 18, 37), (26, 57, 58, 9, 34, 42), (26, 57, 65, 19, 25, 34), (26, 58, 68, 15, 31, 42),
+    (27, 29, 46, 17, 14, 28), (27, 35, 50, 25, 4, 18), (27, 35, 51, 21, 16, 22), (27, 42, 55, 21, 19, 24),
+    (27, 45, 57, 7, 43, 8), (27, 46, 47, 9, 30, 32), (27, 46, 58, 17, 28, 28), (27, 46, 65, 10, 41, 17),
+    (27, 48, 51, 14, 41, 2), (27, 55, 56, 9, 36, 38), (27, 61, 65, 26, 4, 17), (28, 29, 40, 25, 6, 16),
+    (28, 32, 41, 23, 14, 15), (28, 32, 58, 19, 22, 15), (28, 33, 43, 21, 19, 14), (28, 33, 67, 21, 14, 34),
+    (28, 39, 67, 9, 30, 37), (28, 41, 48, 23, 15, 21), (28, 44, 67, 1, 43, 14), (28, 52, 67, 9, 40, 37),
+    (28, 55, 58, 25, 22, 12), (28, 58, 65, 25, 12, 26), (28, 66, 67, 21, 28, 34), (29, 32, 42, 10, 8, 38),
+    (29, 34, 38, 11, 3, 35), (29, 35, 61, 26, 9, 22), (29, 37, 64, 17, 21, 37), (29, 38, 68, 11, 35, 6),
+    (29, 41, 65, 21, 15, 38), (29, 42, 52, 10, 38, 13), (29, 42, 59, 19, 14, 40), (29, 46, 53, 26, 18, 11),
+    (29, 46, 54, 14, 28, 34), (29, 46, 63, 12, 24, 47), (29, 48, 59, 19, 16, 40), (29, 52, 57, 21, 18, 34),
+    (29, 59, 66, 19, 40, 22), (30, 32, 49, 5, 27, 25), (30, 36, 49, 12, 15, 40), (30, 37, 38, 10, 24, 26),
+    (30, 41, 48, 18, 28, 20), (30, 42, 68, 27, 17, 11), (30, 43, 67, 11, 40, 1), (30, 49, 50, 13, 16, 42),
+    (30, 52, 53, 29, 9, 10), (31, 32, 49, 9, 17, 39), (31, 32, 65, 28, 7, 24), (31, 33, 34, 12, 17, 26),
+    (31, 33, 61, 21, 11, 40), (31, 34, 66, 12, 26, 34), (31, 37, 50, 19, 8, 38), (31, 38, 54, 28, 2, 23),
+    (31, 39, 46, 15, 32, 14), (31, 39, 66, 23, 16, 35), (31, 40, 64, 3, 38, 19), (31, 42, 52, 22, 20, 27),
+    (31, 49, 64, 9, 39, 34), (31, 52, 63, 22, 27, 30), (31, 54, 57, 28, 23, 3), (31, 64, 65, 28, 14, 24),
+    (32, 33, 67, 24, 14, 34), (32, 34, 49, 9, 1, 47), (32, 35, 36, 20, 17, 22), (32, 35, 63, 13, 23, 40),
+    (32, 39, 59, 22, 23, 25), (32, 41, 50, 10, 21, 40), (32, 43, 44, 4, 21, 38), (32, 44, 54, 25, 14, 29),
+    (32, 49, 54, 27, 25, 9), (32, 49, 62, 17, 39, 18), (32, 49, 68, 9, 47, 2), (32, 54, 66, 25, 29, 21),
+    (32, 66, 67, 24, 28, 34), (33, 35, 38, 3, 32, 15), (33, 36, 67, 14, 27, 34), (33, 37, 46, 8, 6, 44),
+    (33, 37, 57, 11, 24, 39), (33, 40, 41, 11, 26, 28), (33, 40, 67, 14, 30, 34), (33, 41, 59, 29, 9, 25),
+    (33, 42, 64, 27, 5, 36), (33, 43, 52, 19, 14, 39), (33, 43, 56, 19, 14, 42), (33, 43, 56, 30, 3, 23),
+    (33, 44, 67, 14, 33, 34), (33, 45, 51, 28, 23, 7), (33, 46, 61, 26, 16, 31), (33, 47, 58, 6, 45, 13),
+    (33, 48, 67, 14, 36, 34), (33, 49, 56, 25, 31, 9), (33, 49, 67, 27, 27, 11), (33, 51, 62, 17, 39, 24),
+    (33, 52, 67, 14, 39, 34), (33, 56, 67, 14, 42, 34), (33, 60, 67, 14, 45, 34), (34, 38, 58, 3, 35, 22),
+    (34, 44, 67, 30, 17, 18), (34, 49, 64, 1, 47, 18), (34, 52, 58, 21, 30, 31), (34, 53, 60, 32, 11, 16),
+    (35, 38, 44, 32, 15, 4), (35, 38, 55, 32, 15, 5), (35, 38, 61, 17, 29, 26), (35, 38, 66, 32, 15, 6),
+    (35, 40, 43, 5, 25, 33), (35, 42, 53, 19, 17, 39), (35, 43, 64, 5, 33, 40), (35, 49, 60, 14, 40, 25),
+    (35, 53, 63, 29, 26, 17), (35, 63, 64, 23, 40, 26), (36, 38, 59, 19, 29, 22), (36, 39, 53, 7, 38, 6),
+    (36, 42, 55, 28, 19, 24), (36, 53, 54, 23, 26, 32), (36, 55, 63, 27, 36, 6), (36, 58, 59, 12, 38, 40),
+    (36, 58, 67, 25, 41, 9), (36, 66, 67, 27, 28, 34), (37, 39, 53, 26, 12, 34), (37, 46, 66, 6, 44, 16),
+    (37, 50, 62, 8, 38, 38), (37, 52, 53, 26, 16, 34), (37, 53, 65, 26, 34, 20), (37, 55, 56, 12, 24, 47),
+    (37, 58, 64, 21, 34, 37), (37, 67, 68, 28, 27, 35), (38, 46, 64, 7, 33, 43), (38, 55, 61, 1, 43, 38),
+    (38, 58, 68, 35, 22, 6), (39, 46, 60, 38, 6, 11), (39, 46, 62, 32, 14, 30), (39, 48, 59, 23, 33, 25),
+    (39, 52, 53, 20, 41, 18), (39, 55, 56, 13, 36, 38), (39, 56, 67, 30, 18, 37), (39, 59, 64, 23, 25, 44),
+    (39, 62, 66, 16, 46, 35), (40, 42, 68, 36, 17, 11), (40, 62, 64, 38, 6, 19), (40, 66, 67, 30, 28, 34),
+    (41, 41, 58, 29, 0, 41), (41, 45, 48, 21, 36, 15), (41, 45, 64, 21, 36, 20), (41, 47, 57, 29, 4, 40),
+    (41, 48, 50, 6, 37, 31), (41, 48, 56, 25, 5, 44), (41, 48, 60, 28, 16, 39), (41, 49, 63, 14, 29, 46),
+    (41, 53, 57, 39, 15, 7), (41, 53, 58, 29, 0, 41), (41, 58, 65, 15, 42, 38), (42, 44, 64, 33, 27, 5),
+    (42, 45, 55, 19, 35, 24), (42, 46, 54, 40, 14, 1), (42, 49, 50, 14, 32, 34), (42, 50, 68, 17, 45, 11),
+    (42, 52, 62, 20, 27, 44), (42, 54, 55, 19, 42, 24), (42, 55, 60, 4, 36, 45), (43, 44, 56, 3, 40, 23),
+    (43, 44, 57, 28, 30, 19), (43, 46, 67, 29, 28, 28), (43, 52, 66, 14, 39, 38), (43, 56, 63, 33, 35, 9),
+    (43, 60, 67, 40, 22, 1), (44, 49, 67, 36, 27, 11), (44, 51, 67, 17, 45, 18), (44, 51, 68, 19, 46, 0),
+    (44, 56, 67, 43, 2, 14), (44, 59, 67, 7, 45, 42), (44, 66, 67, 33, 28, 34), (45, 47, 57, 34, 26, 20),
+    (45, 48, 49, 18, 20, 40), (45, 48, 61, 7, 34, 42), (45, 51, 68, 7, 43, 35), (45, 52, 56, 44, 7, 9),
+    (45, 53, 57, 22, 46, 5), (45, 54, 57, 43, 14, 8), (45, 58, 59, 15, 38, 40), (46, 46, 51, 10, 21, 44),
+    (46, 51, 67, 40, 25, 4), (46, 54, 58, 28, 34, 28), (46, 54, 65, 41, 20, 17), (46, 58, 63, 24, 24, 47),
+    (47, 48, 48, 46, 4, 9), (47, 55, 58, 45, 10, 13), (48, 49, 60, 20, 40, 24), (48, 51, 54, 41, 2, 28),
+    (48, 53, 55, 31, 37, 17), (48, 54, 55, 46, 7, 14), (48, 55, 62, 26, 44, 16), (48, 55, 63, 36, 36, 6),
+    (48, 66, 67, 36, 28, 34), (49, 50, 51, 32, 34, 17), (49, 50, 60, 16, 42, 26), (49, 50, 66, 32, 34, 22),
+    (49, 55, 67, 27, 45, 11), (49, 62, 64, 39, 18, 34), (49, 64, 68, 47, 18, 2), (50, 53, 58, 34, 37, 13),
+    (50, 59, 61, 21, 45, 30), (51, 55, 56, 17, 36, 38), (52, 53, 63, 34, 36, 21), (52, 56, 67, 40, 18, 37),
+    (52, 57, 58, 18, 34, 42), (52, 57, 65, 38, 25, 34), (52, 58, 68, 30, 31, 42), (52, 62, 63, 27, 44, 30),
+    (52, 66, 67, 39, 28, 34), (55, 58, 60, 46, 15, 29), (56, 66, 67, 42, 28, 34), (60, 66, 67, 45, 28, 34),
+    (61, 62, 63, 40, 42, 21),
+]
+
+
+def near_miss(entry):
+    """-> (radii, offset, sign, relative distance) recomputed exactly; sign +1 = just outside, -1 = just inside"""
+    rx, ry, rz, i, j, k = (int(v) for v in entry)
+    lhs = i * i * (ry * rz) ** 2 + j * j * (rx * rz) ** 2 + k * k * (rx * ry) ** 2
+    rhs = (rx * ry * rz) ** 2
+    d = lhs - rhs
+    return (rx, ry, rz), (i, j, k), (1 if d > 0 else -1), abs(d) / rhs
+
+
+NEAR_REL = 2.5e-7
+
+
+def count_near(lhs, rhs):
+    """number of voxels whose integer lhs misses rhs by less than NEAR_REL * rhs without being equal"""
+    d = np.abs(lhs - rhs)
+    return int(((d > 0) & (d * 4000000 <= rhs)).sum())
